@@ -44,6 +44,22 @@ impl StringFormatOptions {
                 .map_err(|_| StringFormatError::InternalError)
         };
 
+        // Check for a fill character (a grapheme cluster) followed by an alignment at the start of
+        // the string. This needs to come first, a cluster can start with a character that has another
+        // meaning in the format options (e.g. `e` followed by a combining mark).
+        let mut graphemes = format_string.graphemes(true);
+        if let (Some(fill), Some(alignment @ ("<" | "^" | ">"))) =
+            (graphemes.next(), graphemes.next())
+            && fill.chars().count() > 1
+        {
+            result.fill_character = Some(add_string_constant(fill)?);
+            result.alignment = char_to_alignment(alignment.chars().next().unwrap());
+            chars = format_string[fill.len() + alignment.len()..]
+                .chars()
+                .peekable();
+            position = MinWidth;
+        }
+
         while let Some(next) = chars.next() {
             match (next, chars.peek(), position) {
                 // Check for single-char fill character at the start of the string
